@@ -234,6 +234,19 @@ void CPCA(tensor *x, int scaling, size_t npc, CPCAMODEL *model)
     }
 
     while(1){ /* loop until convergence of t */
+      if(!(DVectorDVectorDotProd(t, t) > 0.f)){
+        /* nothing left to extract (rank exhausted): store a null component */
+        MatrixSet(T, 0.f);
+        TensorAppendMatrix(model->block_scores, T);
+        NewDVector(&local_blockvexp, Eb->order);
+        for(k = 0; k < Eb->order && pc > 0; k++)
+          local_blockvexp->data[k] = model->block_expvar->d[pc-1]->data[k];
+        DVectorAppend(model->total_expvar, 0.f);
+        DVectorListAppend(model->block_expvar, local_blockvexp);
+        DelDVector(&local_blockvexp);
+        break;
+      }
+
       for(k = 0; k < Eb->order; k++){
         NewDVector(&p_b, Eb->m[k]->col);
        /*
@@ -323,7 +336,7 @@ void CPCA(tensor *x, int scaling, size_t npc, CPCAMODEL *model)
           MatrixTranspose(Eb->m[k], Eb_T);
           NewMatrix(&Eb_T_E, Eb->m[k]->col, Eb->m[k]->col);
           MatrixDotProduct(Eb_T, Eb->m[k], Eb_T_E); /*SLOW ISNAN TEST +1SEC*/
-          local_blockvexp->data[k] = (1.f-(MatrixTrace(Eb_T_E)/tr_orig->data[k]))*100.;
+          local_blockvexp->data[k] = (tr_orig->data[k] > 0.f) ? (1.f-(MatrixTrace(Eb_T_E)/tr_orig->data[k]))*100. : 0.f;
           DelMatrix(&Eb_T_E);
           DelMatrix(&Eb_T);
 
